@@ -627,6 +627,19 @@ def check_function(prog, spec):
         raise bm.AnalysisBroken('R-SCHEME: %s has %d loop(s); the segment tables of the construction were written for %s - the routine has been '
                                 'restructured and this rule has no verdict on it (the structure-independent rules still apply)'
                                 % (spec['fn'], len(g.loops), want_loops))
+    # the tables name the routine's state variables (cursors, the slot index, the randomness): a routine that no longer has them walks
+    # its data differently
+    names = set()
+    for x in walk(f['body']):
+        if isinstance(x, dict) and x.get('k') == 'decl':
+            for v in x['vars']:
+                names.add(v.get('name'))
+    for p_ in f.get('params', []):
+        names.add(p_.get('name'))
+    missing = [s_ for s_ in spec.get('state', []) if s_.startswith('L:') and s_[2:] in ('i', 'j', 'k', 'x') and s_[2:] not in names]
+    if missing:
+        raise bm.AnalysisBroken('R-SCHEME: %s has no local %s; the segment tables of the construction were written for the routine that has them - '
+                                'restructured, no verdict' % (spec['fn'], ', '.join(m_[2:] for m_ in missing)))
     problems = []
     nseg = 0
     scratch = set(spec.get('scratch', []))
